@@ -86,6 +86,12 @@ def run_case(case, res, verbose=False):
                 code = csrc
             elif form == 'srcpar':
                 code = f'({csrc})'
+            elif form == 'srccmt':  # new code that carries trivia of its own: it has to be stripped, not spliced in
+                code = f'{csrc}  # note'
+            elif form == 'srcnl':
+                code = f'\n{csrc}\n'
+            elif form == 'fstcmt':
+                code = FST(f'{csrc}  # note', mode)
             elif form == 'ast':
                 code = cast
             elif form == 'fst':
@@ -99,6 +105,12 @@ def run_case(case, res, verbose=False):
                 f_, i_ = path[-1]
                 parent = node.parent
                 parent.put(code, i_, f_, **opts) if i_ is not None else parent.put(code, field=f_, **opts)
+            elif case.get('entry') == 'slice1':  # the same replacement through the slice interface with one=True
+                f_, i_ = path[-1]
+                parent = node.parent
+                if isinstance(parent.a, ast.Compare):
+                    f_, i_ = '_all', (0 if f_ == 'left' else i_ + 1)
+                parent.put_slice(code, i_, i_ + 1, f_, one=True, **opts)
             else:
                 node.replace(code, **opts)
     except CaseTimeout:
@@ -117,6 +129,8 @@ def run_case(case, res, verbose=False):
                          f'{exc!r}\nparent={psrc!r} slot={O.path_str(path)} child={csrc!r} form={form}', case, case)
                 return
         res.outcomes[k + ('/valid' if exp_status == 'ok' else '/' + exp_status)] += 1
+        if case.get('entry') == 'slice1':
+            return  # the slice interface may refuse what the element interface accepts; only wrong results count for this entry
         in_pattern = any(isinstance(O.get_path(ptree, path[:k]), ast.pattern) for k in range(len(path)))
         own_pars_only = csrc.startswith('(') and '\n' in csrc  # a child that cannot be written without its parentheses
         if exp_status == 'ok' and not isinstance(exc, NotImplementedError) and form in ('src', 'ast', 'fst') and \
@@ -132,7 +146,8 @@ def run_case(case, res, verbose=False):
     bad = live_vs_parse(root, 'Module')
     if bad:
         # input-side fact for the known-finding selector: the caller asked to keep the new code's own parentheses (pars=True)
-        params = dict(case, pars_true_own_parens=bool(opts.get('pars') is True and form in ('srcpar', 'fstpar')))
+        params = dict(case, pars_true_own_parens=bool(opts.get('pars') is True and form in ('srcpar', 'fstpar')),
+                      child_kind={'Starred': 'Starred', 'Yield': 'Yield', 'YieldFrom': 'Yield'}.get(cast.__class__.__name__, 'other'))
         res.fail(cid, 'C01:source-does-not-parse' if bad.startswith('source does not parse') else 'C01:live-tree-differs-from-parse',
                  f'{bad}\nparent={psrc!r} slot={O.path_str(path)} child={csrc!r} form={form} opts={opts}', params, case)
         return
@@ -170,7 +185,13 @@ def run_shard(desc, tier, res):
                         ['srcpar'] if not csrc.startswith('*') and ',' not in csrc.replace('(a, b)', '') else [])
                 if '\\\n' in csrc:
                     forms = ['src']
+                if typ == 'expr' and csrc in ('x', 'a + b') and lay == 'bare':
+                    forms = forms + ['srccmt', 'srcnl', 'fstcmt']
                 variants = [({'norm': True}, 'replace')]
+                if lay == 'bare' and typ == 'expr' and (
+                        (idx is not None and parent.__class__.__name__ in ('BoolOp', 'Compare', 'Tuple', 'List', 'Set', 'Call') and
+                         field in ('values', 'comparators', 'elts', 'args')) or (parent.__class__.__name__ == 'Compare' and field == 'left')):
+                    variants.append(({'norm': True}, 'slice1'))
                 if tier == 'thorough':
                     variants += [({'norm': True, 'pars': True}, 'replace'), ({'norm': True}, 'put')]
                 for form in forms:
